@@ -440,4 +440,132 @@ def verify_sram_init():
     return fv
 
 
-ALL = [verify_eventmonitor_init, verify_wb_csr_bridge_init, verify_sram_init]
+def verify_gpio_init():
+    """gpio.Peripheral.__init__ (C16), all parameter values:
+      refusals        TypeError iff pin_count is not a positive int or input_stages is not a non-negative int (nothing else by the
+                      constructor itself; the builder, the registers and the signatures validate their own arguments)
+      registers       exactly four, added to ONE csr.Builder(addr_width, data_width) in the order Mode, Input, Output, SetClr under those
+                      names, each constructed for pin_count pins, at implicit offsets; the peripheral keeps what add() returns
+      bridge          csr.Bridge over that builder's memory map; the peripheral's bus has the signature csr.Signature(addr_width, data_width)
+                      and carries the BRIDGE's memory map (so the addresses software sees are the ones the bridge decodes)
+      ports           `pins`: pin_count pin interfaces, `alt_mode`: pin_count bits; pin_count and input_stages kept as given"""
+    FILE = "amaranth_soc/gpio.py"
+    fv = FnVerifier("gpio.Peripheral.__init__", [])
+    fn = find_def(FILE, "Peripheral.__init__")
+    ex = Exec(FILE, "Peripheral", axioms=[])
+    rec = Recorder()
+
+    class BuilderModel:
+        def call_add(self, ex_, recv, a, k, q, node):
+            rec.calls.append(("add", q.fork(), a, k, recv))
+            return [(a[1], q), (Raised("refused-by-Builder.add"), q.fork())]
+
+        def call_as_memory_map(self, ex_, recv, a, k, q, node):
+            mm = SymObj("MemoryMap", "builder map")
+            rec.calls.append(("as_memory_map", q.fork(), a, k, mm))
+            return [(mm, q), (Raised("refused-by-as_memory_map"), q.fork())]
+
+    def c_builder(ex_, recv, a, k, q, node):
+        obj = SymObj("Builder", f"builder#{len(rec.calls)}", model=BuilderModel())
+        rec.calls.append(("Builder", q.fork(), a, k, obj))
+        return [(obj, q), (Raised("refused-by-Builder"), q.fork())]
+    ex.contracts["csr.Builder"] = c_builder
+    for nm in ("Mode", "Input", "Output", "SetClr"):
+        ex.contracts[f"self.{nm}"] = rec.ctor(nm)
+
+    def c_bridge(ex_, recv, a, k, q, node):
+        obj = SymObj("Bridge", "bridge")
+        b = SymObj("Interface", "bridge.bus"); b.init_fields["memory_map"] = a[0]
+        obj.init_fields["bus"] = b
+        rec.calls.append(("Bridge", q.fork(), a, k, obj))
+        return [(obj, q), (Raised("refused-by-Bridge"), q.fork())]
+    ex.contracts["csr.Bridge"] = c_bridge
+    ex.contracts["csr.Signature"] = rec.ctor("Signature", fields=lambda a, k, o: dict(k))
+    ex.contracts["PinSignature"] = rec.ctor("PinSignature", may_refuse=False)
+    ex.contracts["unsigned"] = lambda ex_, recv, a, k, q, node: [(("unsigned", a[0]), q)]
+    ex.contracts["In"] = lambda ex_, recv, a, k, q, node: [(("In", a[0]), q)]
+
+    class OutModel:
+        def call_array(self, ex_, recv, a, k, q, node):
+            return [(("Out-array", recv.inner, a[0]), q)]
+
+    def c_out(ex_, recv, a, k, q, node):
+        o = SymObj("Out", "Out(...)", model=OutModel()); o.inner = a[0]
+        return [(o, q)]
+    ex.contracts["Out"] = c_out
+    ex.contracts["super"] = lambda ex_, recv, a, k, q, node: [(Opaque("super()"), q)]
+
+    class PortModel:
+        def setattr(self, ex_, obj, attr, value, q, node):
+            if attr != "memory_map":
+                return None
+            q.heap[(id(obj), attr)] = value
+            q.writes.append((obj.name, attr))
+            return [("fall", None, q), ("raise", "refused-by-memory_map-setter", q.fork())]
+
+    def c_super_init(ex_, recv, a, k, q, node):
+        members = a[0]
+        self__ = q.env["self"]
+        if not isinstance(members, DictLit):
+            raise Unsupported("wiring.Component.__init__ with something else than a dict literal")
+        q.ghost["members"] = members.items
+        port = SymObj("CsrPort", "self.bus", model=PortModel())
+        q.heap[(id(self__), "bus")] = port
+        return [(NONE, q)]
+    ex.contracts["super().__init__"] = c_super_init
+    q = Path()
+    self_ = SymObj("Peripheral", "self")
+    pc_, st_ = Dyn("pin_count"), Dyn("input_stages")
+    aw, dw = Opaque("addr_width argument"), Opaque("data_width argument")
+    q.assume(z3.And(pc_.wf(), st_.wf()))
+    q.env.update({"self": self_, "pin_count": pc_, "addr_width": aw, "data_width": dw, "input_stages": st_})
+    outs = ex.run(fn, q)
+    fv.paths = len(outs)
+    valid = z3.And(pc_.tag == T_INT, pc_.ival > 0, st_.tag == T_INT, st_.ival >= 0)
+    n_ok = 0
+    for kk, o in enumerate(outs):
+        p, lab = o.path, f"path{kk}"
+        if o.kind == "raise":
+            if o.exc.startswith("refused-by-"):
+                continue
+            fv.add("refuses-with-TypeError-only-a-bad-pin-count-or-stage-count", lab, p.pc, z3.And(z3.BoolVal(o.exc == "TypeError"), z3.Not(valid)))
+            continue
+        n_ok += 1
+        fv.add("accepts-only-valid-parameters", lab, p.pc, valid)
+        mine = [c for c in rec.calls if all(any(f.eq(h) for h in p.pc) for f in c[1].pc)]
+        by = lambda what: [c for c in mine if c[0] == what]
+        shape = all(len(by(w)) == 1 for w in ("Builder", "Mode", "Input", "Output", "SetClr", "as_memory_map", "Bridge", "Signature")) and len(by("add")) == 4
+        fv.add("one-builder-four-registers-one-bridge", lab, p.pc, z3.BoolVal(shape))
+        if not shape:
+            continue
+        b = by("Builder")[0]
+        fv.add("builder-has-the-bus-geometry", lab, p.pc, z3.BoolVal(b[3].get("addr_width") is aw and b[3].get("data_width") is dw and not b[2]))
+        adds = by("add")
+        names = [c[2][0].what if isinstance(c[2][0], Opaque) else None for c in adds]
+        fv.add("registers-added-in-the-order-Mode-Input-Output-SetClr", lab, p.pc,
+               z3.BoolVal(names == ["str:Mode", "str:Input", "str:Output", "str:SetClr"] and all(c[4] is b[4] and not c[3] for c in adds)))
+        for c, nm in zip(adds, ("Mode", "Input", "Output", "SetClr")):
+            made = by(nm)[0]
+            fv.add(f"register-{nm}-built-for-pin_count-pins-and-added-itself", lab, p.pc,
+                   z3.BoolVal(c[2][1] is made[4] and len(made[2]) == 1 and made[2][0] is pc_ and not made[3]))
+        kept = [p.heap.get((id(self_), a)) for a in ("_mode", "_input", "_output", "_setclr")]
+        fv.add("peripheral-keeps-the-registers-add-returned", lab, p.pc, z3.BoolVal(all(k is by(nm)[0][4] for k, nm in zip(kept, ("Mode", "Input", "Output", "SetClr")))))
+        mmc, br, sg = by("as_memory_map")[0], by("Bridge")[0], by("Signature")[0]
+        fv.add("bridge-over-the-builder's-memory-map-after-all-four-registers", lab, p.pc,
+               z3.BoolVal(br[2][0] is mmc[4] and mmc[4] is not None and len(mmc[1].pc) >= len(adds[-1][1].pc) and p.heap.get((id(self_), "_bridge")) is br[4]))
+        fv.add("bus-signature-has-the-given-geometry", lab, p.pc, z3.BoolVal(sg[3].get("addr_width") is aw and sg[3].get("data_width") is dw))
+        members = p.ghost.get("members", {})
+        ok_members = (set(members) == {"bus", "pins", "alt_mode"} and members["bus"] == ("In", sg[4])
+                      and isinstance(members["pins"], tuple) and members["pins"][0] == "Out-array" and members["pins"][2] is pc_
+                      and isinstance(members["alt_mode"], SymObj) and isinstance(getattr(members["alt_mode"], "inner", None), tuple)
+                      and members["alt_mode"].inner == ("unsigned", pc_))
+        fv.add("ports:bus-in,pins-array-of-pin_count,alt_mode-pin_count-bits", lab, p.pc, z3.BoolVal(bool(ok_members)))
+        port = p.heap.get((id(self_), "bus"))
+        fv.add("bus-carries-the-bridge's-memory-map", lab, p.pc, z3.BoolVal(port is not None and p.heap.get((id(port), "memory_map")) is mmc[4]))
+        fv.add("pin-count-and-stages-kept", lab, p.pc, z3.BoolVal(p.heap.get((id(self_), "_pin_count")) is pc_ and p.heap.get((id(self_), "_input_stages")) is st_))
+    fv.add("cover:accepting-paths", "vacuity", [], z3.BoolVal(n_ok >= 1))
+    fv.add_engine_obligations(ex)
+    return fv
+
+
+ALL = [verify_eventmonitor_init, verify_wb_csr_bridge_init, verify_sram_init, verify_gpio_init]
